@@ -637,7 +637,7 @@ Proof.
   - exfalso. exact (Hne _ Hc).
 Qed.
 
-Lemma exchange_nothing_left_refuted :
+Lemma exchange_cleanup_needs_empty_directory :
   exists remote pr env sc,
     left_behind env (x_eff (client_exchange remote pr env sc)) <> [].
 Proof.
